@@ -13,7 +13,8 @@
 //!     is accepted (`hint`), LC 5/6/7 only when the member value starts with a UInt32
 //!     (DHEADER / length) and 4 + k*NEXTINT equals the member size,
 //!   * PID of the XCDR1 list terminator (rule (23) says PID_SENTINEL; value 1 as in RTPS).
-//! Wide strings (rule (4)) are not implemented: no offline normative text; they are outside the C10
+//! Wide strings (rule (4)) are not implemented (the one exception, `decode_body_as_reader`, walks over
+//! dust-dds' own layout only to locate the objects of a stream): no offline normative text; they are outside the C10
 //! common subset.
 use std::collections::BTreeSet;
 use xcdrlib::dustglue::select_case;
@@ -64,6 +65,18 @@ pub enum LcPolicy {
     Plain,
     /// additionally LC 5/6/7 whenever the member starts with a UInt32 that can double as NEXTINT
     Optimized,
+    /// like `Optimized` but LC 4 wherever `Optimized` would pick LC 6 or LC 7 (used to isolate the
+    /// reader's handling of LC 6/7 from everything else)
+    OptimizedLc5Only,
+    /// The length codes dust-dds' serializer picks (EMheader1::write_header): LC 5 for appendable /
+    /// mutable struct and union members and for every SEQUENCE member, LC 0-3 by size, LC 4 otherwise.
+    /// For a non-empty sequence of a 2/4/8/16-byte primitive that LC 5 is NOT a legitimate encoding
+    /// (NEXTINT = element count); the policy exists only to verify that dust-dds' bytes differ from a
+    /// correct encoding in exactly this and nothing else. The hint is ignored.
+    DustLike,
+    /// `DustLike` with LC 4 where `DustLike` is not legitimate: a correct encoding that differs from
+    /// dust-dds' bytes only by that repair
+    DustLikeRepaired,
 }
 
 #[derive(Clone, Copy, Debug, PartialEq, Eq)]
@@ -529,6 +542,9 @@ impl<'h> Enc<'h> {
                     }
                 }
             }
+            if self.opts.lc_policy == LcPolicy::OptimizedLc5Only && legit(5) {
+                return 5;
+            }
             match size {
                 1 => 0,
                 2 => 1,
@@ -537,7 +553,23 @@ impl<'h> Enc<'h> {
                 _ => 4,
             }
         };
+        let dust_like = matches!(self.opts.lc_policy, LcPolicy::DustLike | LcPolicy::DustLikeRepaired);
+        let dust_lc5 = match t {
+            Ty::Struct(x) => x.ext != Ext::Final,
+            Ty::Union(x) => x.ext != Ext::Final,
+            Ty::Seq { .. } => true,
+            _ => false,
+        };
         let lc = match hinted {
+            _ if dust_like && dust_lc5 && (legit(5) || self.opts.lc_policy == LcPolicy::DustLike) => 5,
+            _ if dust_like => match size {
+                _ if dust_lc5 => 4,
+                1 => 0,
+                2 => 1,
+                4 => 2,
+                8 => 3,
+                _ => 4,
+            },
             Some(h) if legit(h) => h,
             _ => default_lc(),
         };
@@ -658,6 +690,22 @@ pub fn construct_at(regions: &[(usize, &'static str)], at: usize) -> &'static st
 // Decoder (strict)
 // ------------------------------------------------------------------------------------------------
 
+/// An XCDR2 mutable structure object found while decoding: where it lies in the stream and which
+/// members of the (reader's) type it does not carry.
+#[derive(Clone, Debug)]
+pub struct MutObj {
+    /// offset of the first EMHEADER (just after the DHEADER)
+    pub start: usize,
+    /// start + DHEADER
+    pub end: usize,
+    /// end of the innermost enclosing XCDR2 appendable object (else the end of the input)
+    pub limit: usize,
+    /// path of the object (member names, "[]" for a collection element, "case" for a union member)
+    pub path: Vec<String>,
+    /// (member id, member name) of the members of the type that are not in the object
+    pub absent: Vec<(u32, String)>,
+}
+
 pub struct Dec<'a> {
     b: &'a [u8],
     pos: usize,
@@ -666,6 +714,13 @@ pub struct Dec<'a> {
     le: bool,
     origin_restore: bool,
     pub notes: BTreeSet<String>,
+    /// every XCDR2 mutable structure object met, in stream order
+    pub mut_objs: Vec<MutObj>,
+    path: Vec<String>,
+    limit: usize,
+    /// decode with a type that may be an evolved version of the writer's: an XCDR2 appendable
+    /// structure may carry trailing members the type does not have (skipped with the DHEADER)
+    as_reader: bool,
 }
 
 impl<'a> Dec<'a> {
@@ -751,7 +806,29 @@ impl<'a> Dec<'a> {
                     .map(Val::Str)
                     .map_err(|_| "string not UTF-8".to_string())
             }
-            Ty::WStr { .. } => Err("refenc: wide strings not supported".into()),
+            Ty::WStr { .. } => {
+                if !self.as_reader {
+                    return Err("refenc: wide strings not supported".into());
+                }
+                // Not part of the trusted base (no normative text offline): the layout dust-dds itself
+                // uses (UInt32 count of UTF-16 units including the terminating NUL unit), accepted only
+                // when the stream is walked to LOCATE its objects (decode_body_as_reader), never as an oracle
+                let n = self.u32()? as usize;
+                if n == 0 {
+                    return Ok(Val::Str(String::new()));
+                }
+                if n > self.b.len() {
+                    return Err("wide string length exceeds the input".into());
+                }
+                let mut units = Vec::with_capacity(n);
+                for _ in 0..n {
+                    units.push(self.u16()?);
+                }
+                if units.pop() != Some(0) {
+                    return Err("wide string not NUL terminated".into());
+                }
+                String::from_utf16(&units).map(Val::Str).map_err(|_| "wide string not UTF-16".to_string())
+            }
             Ty::Enum(e) => self.enum_holder(e),
             Ty::Struct(_) | Ty::Union(_) => self.nested(t),
             Ty::Seq { elem, .. } => {
@@ -803,9 +880,11 @@ impl<'a> Dec<'a> {
             return Err(format!("collection length {} exceeds the input", n));
         }
         let mut xs = Vec::with_capacity(n);
+        self.path.push("[]".into());
         for _ in 0..n {
             xs.push(self.value(elem)?);
         }
+        self.path.pop();
         Ok(Val::List(xs))
     }
 
@@ -819,18 +898,43 @@ impl<'a> Dec<'a> {
                     if start + size > self.b.len() {
                         return Err("DHEADER exceeds the input".into());
                     }
-                    let v = self.fstruct(s, start + size)?;
+                    let saved_limit = self.limit;
+                    self.limit = start + size;
+                    let v = self.fstruct(s, start + size);
+                    self.limit = saved_limit;
+                    let v = v?;
+                    if self.as_reader && self.pos < start + size {
+                        self.pos = start + size;
+                    }
                     self.check_dheader(start, size, "appendable struct")?;
                     Ok(v)
                 }
                 (Ext::Mutable, Ver::X1) => {
-                    let ids: Vec<(u32, &Ty)> = s.members.iter().map(|m| (m.id, &m.ty)).collect();
+                    let ids: Vec<(u32, &Ty, &str)> = s.members.iter().map(|m| (m.id, &m.ty, m.name.as_str())).collect();
                     let vals = self.pl_list(&ids)?;
                     Ok(Val::Struct(vals))
                 }
                 (Ext::Mutable, Ver::X2) => {
-                    let ids: Vec<(u32, &Ty)> = s.members.iter().map(|m| (m.id, &m.ty)).collect();
-                    let vals = self.em_list(&ids)?;
+                    let ids: Vec<(u32, &Ty, &str)> = s.members.iter().map(|m| (m.id, &m.ty, m.name.as_str())).collect();
+                    let slot = self.mut_objs.len();
+                    self.mut_objs.push(MutObj {
+                        start: 0,
+                        end: 0,
+                        limit: self.limit,
+                        path: self.path.clone(),
+                        absent: Vec::new(),
+                    });
+                    let (vals, start, end) = self.em_list(&ids)?;
+                    let o = &mut self.mut_objs[slot];
+                    o.start = start;
+                    o.end = end;
+                    o.absent = s
+                        .members
+                        .iter()
+                        .zip(vals.iter())
+                        .filter(|(_, v)| v.is_none())
+                        .map(|(m, _)| (m.id, m.name.clone()))
+                        .collect();
                     Ok(Val::Struct(vals))
                 }
             },
@@ -839,18 +943,25 @@ impl<'a> Dec<'a> {
                 (Ext::Appendable, Ver::X2) => {
                     let size = self.u32()? as usize;
                     let start = self.pos;
-                    let v = self.funion(u)?;
+                    if start + size > self.b.len() {
+                        return Err("DHEADER exceeds the input".into());
+                    }
+                    let saved_limit = self.limit;
+                    self.limit = start + size;
+                    let v = self.funion(u);
+                    self.limit = saved_limit;
+                    let v = v?;
                     self.check_dheader(start, size, "appendable union")?;
                     Ok(v)
                 }
                 (Ext::Mutable, _) => {
-                    let mut ids: Vec<(u32, &Ty)> = vec![(0, &u.disc)];
+                    let mut ids: Vec<(u32, &Ty, &str)> = vec![(0, &u.disc, "disc")];
                     for c in &u.cases {
                         if let Some(ct) = &c.ty {
-                            ids.push((c.id, ct));
+                            ids.push((c.id, ct, "case"));
                         }
                     }
-                    let vals = if self.ver == Ver::X1 { self.pl_list(&ids)? } else { self.em_list(&ids)? };
+                    let vals = if self.ver == Ver::X1 { self.pl_list(&ids)? } else { self.em_list(&ids)?.0 };
                     let disc = vals[0].clone().ok_or("mutable union without discriminator")?;
                     let sel = select_case(u, disc.as_i64().unwrap_or(i64::MIN));
                     let mut val = None;
@@ -883,7 +994,12 @@ impl<'a> Dec<'a> {
         let sel = select_case(u, disc.as_i64().unwrap_or(i64::MIN));
         let val = match sel {
             Some(i) => match &u.cases[i].ty {
-                Some(ct) => Some(Box::new(self.value(ct)?)),
+                Some(ct) => {
+                    self.path.push("case".into());
+                    let x = self.value(ct);
+                    self.path.pop();
+                    Some(Box::new(x?))
+                }
                 None => None,
             },
             None => None,
@@ -896,8 +1012,18 @@ impl<'a> Dec<'a> {
     }
 
     fn fstruct(&mut self, s: &StructTy, end: usize) -> Result<Val, String> {
+        let depth = self.path.len();
+        let r = self.fstruct_inner(s, end);
+        self.path.truncate(depth);
+        r
+    }
+
+    fn fstruct_inner(&mut self, s: &StructTy, end: usize) -> Result<Val, String> {
         let mut ms = Vec::new();
+        let depth = self.path.len();
         for m in &s.members {
+            self.path.truncate(depth);
+            self.path.push(m.name.clone());
             if end != usize::MAX && self.pos >= end {
                 // appendable: trailing members not sent
                 ms.push(None);
@@ -962,7 +1088,7 @@ impl<'a> Dec<'a> {
         }
     }
 
-    fn pl_list(&mut self, ids: &[(u32, &Ty)]) -> Result<Vec<Option<Val>>, String> {
+    fn pl_list(&mut self, ids: &[(u32, &Ty, &str)]) -> Result<Vec<Option<Val>>, String> {
         let mut out: Vec<Option<Val>> = vec![None; ids.len()];
         loop {
             self.align(4)?;
@@ -983,7 +1109,10 @@ impl<'a> Dec<'a> {
                     if out[k].is_some() {
                         return Err(format!("member id {} appears twice", id));
                     }
-                    let v = self.value(ids[k].1)?;
+                    self.path.push(ids[k].2.to_string());
+                    let v = self.value(ids[k].1);
+                    self.path.pop();
+                    let v = v?;
                     if self.pos - start != size {
                         return Err(format!(
                             "member {} takes {} bytes but its header says {}",
@@ -1008,7 +1137,8 @@ impl<'a> Dec<'a> {
         Ok(out)
     }
 
-    fn em_list(&mut self, ids: &[(u32, &Ty)]) -> Result<Vec<Option<Val>>, String> {
+    /// returns (member values, offset of the first EMHEADER, end of the object)
+    fn em_list(&mut self, ids: &[(u32, &Ty, &str)]) -> Result<(Vec<Option<Val>>, usize, usize), String> {
         let size = self.u32()? as usize;
         let start = self.pos;
         let end = start + size;
@@ -1057,7 +1187,10 @@ impl<'a> Dec<'a> {
                     if out[k].is_some() {
                         return Err(format!("member id {} appears twice", id));
                     }
-                    let v = self.value(ids[k].1)?;
+                    self.path.push(ids[k].2.to_string());
+                    let v = self.value(ids[k].1);
+                    self.path.pop();
+                    let v = v?;
                     if self.pos - mstart != msize {
                         return Err(format!(
                             "member {} takes {} bytes but EMHEADER LC {} says {}",
@@ -1077,7 +1210,7 @@ impl<'a> Dec<'a> {
                 }
             }
         }
-        Ok(out)
+        Ok((out, start, end))
     }
 }
 
@@ -1085,11 +1218,23 @@ pub struct Decoded {
     pub val: Val,
     pub rep: Rep,
     pub notes: BTreeSet<String>,
+    /// XCDR2 mutable structure objects of the stream (see [`MutObj`])
+    pub mut_objs: Vec<MutObj>,
 }
 
 /// Decode the body; returns the value, the representation and the offset where the object ends
 /// (before the encapsulation padding).
 pub fn decode_body(t: &Ty, b: &[u8], origin_restore: bool) -> Result<(Decoded, usize), String> {
+    decode_body_opt(t, b, origin_restore, false)
+}
+
+/// Decode bytes written with another (compatible) version of `t`, as a reader that follows the type
+/// evolution rules does; used to locate the objects of the stream, not as an oracle.
+pub fn decode_body_as_reader(t: &Ty, b: &[u8]) -> Result<(Decoded, usize), String> {
+    decode_body_opt(t, b, true, true)
+}
+
+fn decode_body_opt(t: &Ty, b: &[u8], origin_restore: bool, as_reader: bool) -> Result<(Decoded, usize), String> {
     if b.len() < 4 {
         return Err("shorter than the encapsulation header".into());
     }
@@ -1124,6 +1269,10 @@ pub fn decode_body(t: &Ty, b: &[u8], origin_restore: bool) -> Result<(Decoded, u
         le,
         origin_restore,
         notes: BTreeSet::new(),
+        mut_objs: Vec::new(),
+        path: Vec::new(),
+        limit: b.len(),
+        as_reader,
     };
     let val = d.nested(t)?;
     let consumed = d.pos;
@@ -1132,6 +1281,7 @@ pub fn decode_body(t: &Ty, b: &[u8], origin_restore: bool) -> Result<(Decoded, u
             val,
             rep,
             notes: d.notes,
+            mut_objs: d.mut_objs,
         },
         consumed,
     ))
@@ -1336,90 +1486,32 @@ pub fn fullest_value(t: &Ty) -> Option<Val> {
     })
 }
 
-/// Upper bound of the maximum serialized size of a FINAL key holder (None = unbounded). Padding is
-/// exact while the offset is known (only fixed-size items so far) and worst case afterwards.
-pub fn max_size_upper(t: &Ty, ver: Ver) -> Option<usize> {
-    let maxalign = if ver == Ver::X1 { 8 } else { 4 };
-    struct St {
-        /// upper bound of the current offset
-        upper: usize,
-        /// is `upper` the exact offset?
-        exact: bool,
-    }
-    fn item(st: &mut St, align: usize, size: usize, maxalign: usize) {
-        let a = align.min(maxalign);
-        if st.exact {
-            st.upper += (a - st.upper % a) % a;
-        } else {
-            st.upper += a - 1;
-        }
-        st.upper += size;
-    }
-    fn go(t: &Ty, maxalign: usize, st: &mut St) -> Option<()> {
-        match t {
-            Ty::Prim(p) => item(st, p.size(), p.size(), maxalign),
-            Ty::Enum(e) => item(st, e.bits as usize / 8, e.bits as usize / 8, maxalign),
-            Ty::Str { bound } => {
-                if *bound == 0 {
-                    return None;
-                }
-                item(st, 4, 4, maxalign);
-                st.upper += *bound as usize + 1;
-                st.exact = false;
-            }
-            Ty::WStr { .. } | Ty::Union(_) => return None,
-            Ty::Seq { elem, bound } => {
-                if *bound == 0 {
-                    return None;
-                }
-                if !matches!(&**elem, Ty::Prim(_)) && maxalign == 4 {
-                    item(st, 4, 4, maxalign);
-                }
-                item(st, 4, 4, maxalign);
-                for _ in 0..*bound {
-                    go(elem, maxalign, st)?;
-                }
-                st.exact = false;
-            }
-            Ty::Arr { elem, len } => {
-                if !matches!(&**elem, Ty::Prim(_)) && maxalign == 4 {
-                    item(st, 4, 4, maxalign);
-                }
-                for _ in 0..*len {
-                    go(elem, maxalign, st)?;
-                }
-            }
-            Ty::Struct(s) => {
-                for m in &s.members {
-                    go(&m.ty, maxalign, st)?;
-                }
-            }
-        }
-        Some(())
-    }
-    let mut st = St { upper: 0, exact: true };
-    go(t, maxalign, &mut st)?;
-    Some(st.upper)
+/// Maximum serialized size of a FINAL key holder in one key serialization variant (member order and
+/// representation of that variant); None = unbounded (or a type that cannot be part of a key).
+///
+/// It is the size of the serialization of the fullest value (every string / sequence at its bound),
+/// and that is exact, not an estimate: an item placed at offset `o` ends at align_up(o, a) + size,
+/// which never decreases when `o` grows, and the end of a string or sequence never decreases when its
+/// length grows; so making any string / sequence longer can only move every later offset, and the
+/// total, up. There are no headers in a key holder (final, no optional members) that could shrink.
+/// c12 re-checks the consequence `size(value) <= maximum` on every value it judges.
+pub fn max_size_exact(holder_t: &Ty, variant: KeyVariant) -> Option<usize> {
+    let v = fullest_value(holder_t)?;
+    serialize_key(holder_t, &v, variant).ok().map(|b| b.len())
 }
 
 #[derive(Clone, Copy, Debug, PartialEq, Eq)]
 pub enum MaxClass {
-    /// maximum serialized key size certainly <= 16
+    /// maximum serialized key size <= 16
     AtMost16,
-    /// certainly > 16 (includes unbounded)
+    /// > 16 (includes unbounded)
     Over16,
-    /// lower and upper estimate fall on different sides of 16
-    Unsure,
 }
 
 pub fn max_class(holder_t: &Ty, variant: KeyVariant) -> MaxClass {
-    let upper = max_size_upper(holder_t, variant.ver());
-    let lower = fullest_value(holder_t).and_then(|v| serialize_key(holder_t, &v, variant).ok().map(|b| b.len()));
-    match (lower, upper) {
-        (_, None) => MaxClass::Over16,
-        (Some(l), Some(_)) if l > 16 => MaxClass::Over16,
-        (_, Some(u)) if u <= 16 => MaxClass::AtMost16,
-        _ => MaxClass::Unsure,
+    match max_size_exact(holder_t, variant) {
+        Some(n) if n <= 16 => MaxClass::AtMost16,
+        _ => MaxClass::Over16,
     }
 }
 
